@@ -161,7 +161,7 @@ def pipe(sel: List[int], fs: int) -> bool:
                 kw = {"quads": phys != 1} if integ == "rdflib" else {}
                 got = [norm_item(i) for i in par(bytes(data), entry=P.get("pentry", "flat"), **kw)]
             if P.get("setcmp"):
-                ok = ok and sorted(map(repr, got)) == sorted(map(repr, set(want)))
+                ok = ok and sorted(map(repr, set(got))) == sorted(map(repr, set(want)))
             else:
                 ok = ok and got == want
         if mode in ("ref", "audit", "all"):
@@ -169,7 +169,8 @@ def pipe(sel: List[int], fs: int) -> bool:
                 ritems, ropt, dec = R.decode(bytes(data))
             if mode in ("ref", "all"):
                 if P.get("setcmp"):
-                    ok = ok and sorted(map(repr, ritems)) == sorted(map(repr, set(want)))
+                    # rdflib stores are sets of rdflib terms; "x"^^xsd:string and "x" are two rdflib terms but one Jelly term
+                    ok = ok and sorted(map(repr, set(ritems))) == sorted(map(repr, set(want)))
                 else:
                     ok = ok and ritems == want
             if mode in ("audit", "all"):
